@@ -57,6 +57,7 @@ def run(chk):
     r7_stale_locals(chk, repo, "C18.R7", [PULSE, RED])
     from ..rules import dropped_parameters
     dropped_parameters(chk, repo, "C18.R8", [PULSE, RED])
+    r9_like_dtype(chk, repo)
 
 
 def record_vars(f):
@@ -459,8 +460,23 @@ def r7_stale_locals(chk, repo, rule, paths):
             chk.ok(rule, f"{f.qualname}: row loop at line {lp.lineno} reads no stale loop-local")
     chk.floor(rule, "row loops inspected", n, 3)
 
+# ------------------------------------------------------------------------------------ R9
+def r9_like_dtype(chk, repo):
+    chk.describe("C18.R9", "threshold / baseline arrays are never created with np.*_like(template, ...) without an explicit dtype: the new array silently takes the template's (often integer) dtype and truncates what is stored in it")
+    n = 0
+    for path in (PULSE, RED):
+        for f in repo.module(path).functions.values():
+            for c in calls_in(f.node):
+                nm = (call_name(c) or "")
+                if nm.split(".")[-1] in ("full_like", "zeros_like", "ones_like", "empty_like"):
+                    n += 1
+                    chk.check(kw(c, "dtype") is not None, "C18.R9", f, stmt_of(c), f"`{norm(c)[:70]}` takes its dtype from the template array: a fractional value (noise factor, baseline) stored in it is truncated when the template is an integer array", site_text=f"{f.qualname}: `{norm(c)[:40]}` with explicit dtype", site={"function": f.qualname, "call": norm(c)[:50]})
+    chk.ok("C18.R9", f"{n} np.*_like call(s) in the hit finding / reduction code, all with explicit dtype", nontrivial=False)
+
 
 WITNESSES = [
+    W("noise factor array inherits an integer dtype", "C18.R9", PULSE,
+      "min_height_over_noise = min_height_over_noise * np.ones(n_channels)", "min_height_over_noise = np.full_like(min_amplitude, min_height_over_noise)"),
     W("link arrays unpacked in the wrong order", "C18.R4", RED,
       "previous_record, next_record = record_links(records)", "next_record, previous_record = record_links(records)"),
     W("height of an earlier hit leaks into the next one", "C18.R6", PULSE,
